@@ -13,7 +13,10 @@ over the constants, comparison operators and call-site *shape* extracted into `G
 
 Tokens are symbolic (Dolev–Yao): a client can present any token some worker issued (by index), under any identity, to
 any worker and any method's endpoint, or junk; it cannot seal.  Opening succeeds iff the AAD of the presenting identity
-equals the AAD the token was sealed under and the token is fresh.  The byte-level framing is C12's model, not this one.
+(for a call token: and the endpoint's method, `_compute_call_aad(auth, method)`) equals the AAD the token was sealed under
+and the token is fresh.  Every token failure raises the one `_token_rejected()` (`Reject.tokenRejected`).  The byte-level
+framing and AAD layout are C12's model, not this one; method names are distinct NUL-free identifiers, so binding the
+name is binding the method index.
 Time is in ticks, `tps` ticks per second: `time.time()` is `now / tps` seconds as a real number, `int(time.time())` is
 the Nat quotient — so the float/int mixture of the code (cache: floats, tokens: whole seconds) is kept.
 -/
@@ -36,11 +39,13 @@ def aadTail : Ident → List Char
   | .anon => Gen.C14.aadAnonTail
   | .user d p => Gen.C14.aadUserTag ++ d ++ Gen.C14.aadSep ++ p
 
-/-- `_ResolvedCall`: call state (value and class), both schemas, stream id — opaque content -/
+/-- `_ResolvedCall`: call state (value and class), both schemas, stream id — opaque content — and the minting method -/
 structure RC where
   content : Nat
   /-- class of the call state; `none` = the stream carries no call state (`call_state_bytes == b""`) -/
   stype : Option Nat
+  /-- `_ResolvedCall.method`: the stream method whose `/init` minted the call -/
+  method : Nat
 deriving DecidableEq, Repr
 
 /-- what one `/init` minted: the call token's payload, its AAD identity and `created_at`; the call id is its index -/
@@ -145,8 +150,11 @@ def World.nowS (cfg : Cfg) (W : World) : Nat := W.now / cfg.tps
 def World.start (caps : List Nat) (t0 : Nat) : World :=
   { now := t0, caches := caps.map (fun c => ⟨c, []⟩), calls := [], cursors := [] }
 
+/-- the distinguishable HTTP 400s: the uniform `_token_rejected()` (cursor or call token malformed / not authentic for
+    this caller or method / expired / naming another call / cached call of another method), "Missing call token",
+    "Call token declares call-state type …", "Failed to deserialize state" -/
 inductive Reject where
-  | cursorBad | cursorExpired | callMissing | callBad | callExpired | callMismatch | callType | stateDecode
+  | tokenRejected | callMissing | callType | stateDecode
 deriving DecidableEq, Repr
 
 inductive Outcome where
@@ -158,13 +166,13 @@ deriving DecidableEq, Repr
 /-- `_open_cursor_token(token, key, _compute_aad(auth), token_ttl)` -/
 def openCursor (cfg : Cfg) (W : World) (rq : Req) : Except Reject Cursor :=
   match rq.cur with
-  | .junk => .error .cursorBad
+  | .junk => .error .tokenRejected
   | .issued i =>
     match W.cursors[i]? with
-    | none => .error .cursorBad
+    | none => .error .tokenRejected
     | some c =>
-      if aadTail c.sealedFor ≠ aadTail rq.ident then .error .cursorBad
-      else if Gen.C14.tokenExpired cfg.ttl (W.nowS cfg) c.created then .error .cursorExpired
+      if aadTail c.sealedFor ≠ aadTail rq.ident then .error .tokenRejected
+      else if Gen.C14.tokenExpired cfg.ttl (W.nowS cfg) c.created then .error .tokenRejected
       else .ok c
 
 /-- the declared-call-state-type check (`if call_state_bytes:` … `_declared_call_state_types(state_info).get(type)`) -/
@@ -173,20 +181,22 @@ def typeOk (cfg : Cfg) (m : Nat) (rc : RC) : Bool :=
   | none => true
   | some t => cfg.declares m t
 
-/-- `_resolve_call_from_token`: the resolved call and the token's `created_at` -/
+/-- `_resolve_call_from_token(…, method_name)`: the resolved call and the token's `created_at`.  The call token opens
+    under `_compute_call_aad(auth, method_name)`: identity tail *and* method must be the ones it was sealed with.
+    The result is `_ResolvedCall(…, method_name)`. -/
 def resolveCall (cfg : Cfg) (W : World) (rq : Req) (cid : Nat) : Except Reject (RC × Nat) :=
   match rq.call with
   | .absent => .error .callMissing
-  | .junk => .error .callBad
+  | .junk => .error .tokenRejected
   | .issued k =>
     match W.calls[k]? with
-    | none => .error .callBad
+    | none => .error .tokenRejected
     | some cl =>
-      if aadTail cl.owner ≠ aadTail rq.ident then .error .callBad
-      else if Gen.C14.tokenExpired cfg.ttl (W.nowS cfg) cl.created then .error .callExpired
-      else if k ≠ cid then .error .callMismatch
+      if aadTail cl.owner ≠ aadTail rq.ident ∨ cl.rc.method ≠ rq.method then .error .tokenRejected
+      else if Gen.C14.tokenExpired cfg.ttl (W.nowS cfg) cl.created then .error .tokenRejected
+      else if k ≠ cid then .error .tokenRejected
       else if !typeOk cfg rq.method cl.rc then .error .callType
-      else .ok (cl.rc, cl.created)
+      else .ok ({ cl.rc with method := rq.method }, cl.created)
 
 /-- state decode, then cancel / dispatch; a dispatched turn answers with a fresh cursor -/
 def finish (cfg : Cfg) (W : World) (rq : Req) (c : Cursor) (rc : RC) : World × Outcome :=
@@ -202,7 +212,8 @@ def serveCont (cfg : Cfg) (W : World) (w : Nat) (rq : Req) : World × Outcome :=
   | .ok c =>
     match (W.cache w).get c.cid (identKey rq.ident) W.now with
     | (cache1, some rc) =>
-      if cfg.shape.hitChecksType && !typeOk cfg rq.method rc then (W.setCache w cache1, .rejected .callType)
+      if cfg.shape.hitChecksMethod && rc.method != rq.method then (W.setCache w cache1, .rejected .tokenRejected)
+      else if cfg.shape.hitChecksType && !typeOk cfg rq.method rc then (W.setCache w cache1, .rejected .callType)
       else finish cfg (W.setCache w cache1) rq c rc
     | (cache1, none) =>
       match resolveCall cfg W rq c.cid with
@@ -213,7 +224,8 @@ def serveCont (cfg : Cfg) (W : World) (w : Nat) (rq : Req) : World × Outcome :=
           rq c rc
 
 /-- `_run_stream_init_sync` from the mint on: call token, warm-up `put`, first cursor -/
-def serveInit (cfg : Cfg) (W : World) (w : Nat) (ident : Ident) (m : Nat) (rc : RC) : World :=
+def serveInit (cfg : Cfg) (W : World) (w : Nat) (ident : Ident) (m : Nat) (content : Nat) (stype : Option Nat) : World :=
+  let rc : RC := ⟨content, stype, m⟩
   let created := W.nowS cfg
   let cid := W.calls.length
   let cache := (W.cache w).put cid (identKey ident) rc (expiry cfg cfg.shape.initAnchor W.now created)
@@ -223,13 +235,13 @@ def serveInit (cfg : Cfg) (W : World) (w : Nat) (ident : Ident) (m : Nat) (rc : 
 
 inductive Step where
   | tick (d : Nat)
-  | init (w : Nat) (ident : Ident) (m : Nat) (rc : RC)
+  | init (w : Nat) (ident : Ident) (m : Nat) (content : Nat) (stype : Option Nat)
   | cont (w : Nat) (rq : Req)
 deriving DecidableEq, Repr
 
 def step (cfg : Cfg) (W : World) : Step → World
   | .tick d => { W with now := W.now + d }
-  | .init w ident m rc => serveInit cfg W w ident m rc
+  | .init w ident m content stype => serveInit cfg W w ident m content stype
   | .cont w rq => (serveCont cfg W w rq).1
 
 def run (cfg : Cfg) (W : World) (h : List Step) : World := h.foldl (step cfg) W
